@@ -435,13 +435,30 @@ def observe(impl, info, case, dtype, up_dtype, rng, np_seed):
     impl.reset_modes()
     np.random.seed(np_seed)
     b = build(impl, info, case, dtype, rng)
-    out = b.run()
+    # every Tensor created while the public call runs (the operands and parameters exist already)
+    Tcls = sg.Tensor
+    orig_init = Tcls.__init__
+    created = []
+
+    def spy_init(self, data, *a, **k):
+        kind = 'tensor' if isinstance(data, Tcls) else ('ndarray' if isinstance(data, np.ndarray) else ('generic' if isinstance(data, np.generic) else 'python'))
+        orig_init(self, data, *a, **k)
+        try:
+            created.append((kind, str(self.data.dtype), tuple(self.data.shape)))
+        except Exception:
+            pass
+    Tcls.__init__ = spy_init
+    try:
+        out = b.run()
+    finally:
+        Tcls.__init__ = orig_init
     outs = list(out) if isinstance(out, (tuple, list)) else [out]
     o0 = outs[0]
     obs = {'pred': b.pred, 'mixed': b.mixed, 'result_dtype': str(o0.dtype), 'result_shape': tuple(o0.shape),
            'all_results_dtype': sorted(set(str(o.dtype) for o in outs)), 'n_out': len(outs),
            'operand_dtypes': [str(t.dtype) for t in b.tensors], 'param_dtypes': [str(p.dtype) for p in b.params],
-           'is_ndarray': isinstance(o0.data, np.ndarray)}
+           'is_ndarray': isinstance(o0.data, np.ndarray),
+           'created': sorted(set(created)), 'python_scalar_wraps': sorted(set(c for c in created if c[0] == 'python'))}
     ref = case.get('ref')
     if ref is not None:
         arrs = [d.astype(np.float64) if str(d.dtype).startswith('float') else d for d in b.datas]
@@ -489,6 +506,13 @@ def judge(obs, dtype):
     if not obs['mixed']:
         if obs['all_results_dtype'] != [dtype]:
             bad.append(('result-dtype', dtype, obs['all_results_dtype']))
+        # no tensor of another floating dtype is built from array data on the way (a hidden float32 round trip of a
+        # float64 computation); Python scalars wrapped by Tensor(2.0) are float32 by construction and only counted
+        for kind, dt, shp in obs.get('created', []):
+            if kind in ('ndarray', 'generic') and dt.startswith('float') and dt != dtype:
+                bad.append(('narrow-intermediate', 'every tensor created while applying the call to %s operands is %s' % (dtype, dtype),
+                            'a %s tensor of shape %s built from %s data' % (dt, list(shp), kind)))
+                break
     if not obs['is_ndarray']:
         bad.append(('result-not-ndarray', 'ndarray', 'other'))
     if 'ref_shape' in obs and tuple(obs['ref_shape']) != tuple(obs['result_shape']):
